@@ -18,6 +18,7 @@ import (
 	"testing"
 	"time"
 
+	amhelp "github.com/pancsta/asyncmachine-go/pkg/helpers"
 	am "github.com/pancsta/asyncmachine-go/pkg/machine"
 	arpc "github.com/pancsta/asyncmachine-go/pkg/rpc"
 
@@ -205,6 +206,8 @@ func runC12(t *testing.T, rc *core.RunCtx) {
 	if tp.Draw(3) == 0 {
 		faultEvery = tp.Range(2, 9)
 	}
+	// logging configuration: a third of the runs log everything (to nowhere)
+	logAll := tp.Draw(3) == 0
 	rt := reflect.TypeOf(&am.Machine{})
 	if target == "netmach" {
 		rt = reflect.TypeOf(&arpc.NetworkMachine{})
@@ -241,7 +244,15 @@ func runC12(t *testing.T, rc *core.RunCtx) {
 			}
 			// bias towards mutations so that transitions actually run
 			if target == "machine" && tp.Draw(3) == 0 {
-				name = []string{"Add", "Remove", "Set", "Add1", "Toggle1", "AddErr", "Add1", "HandlersDetach", "HandlersBindMaps"}[tp.Draw(9)]
+				name = []string{"Add", "Remove", "Set", "Add1", "Toggle1", "AddErr", "Add1", "HandlersDetach", "HandlersBindMaps", "help.CantAdd", "help.CantAdd"}[tp.Draw(11)]
+			}
+			if name == "help.CantAdd" {
+				// a blocking check: the helper waits for CheckDone and then reads
+				// the outcome the machine wrote into the arguments
+				st := all[tp.Draw(len(all))]
+				prog = append(prog, c12Call{name: name, desc: st})
+				descs = append(descs, fmt.Sprintf("g%d:%s(%s)", g, name, st))
+				continue
 			}
 			args, desc, ok := env.buildArgs(rt, name)
 			if !ok {
@@ -271,7 +282,7 @@ func runC12(t *testing.T, rc *core.RunCtx) {
 			feedQ = append(feedQ, q)
 		}
 	}
-	rc.Desc = fmt.Sprintf("target=%s park=%v detach=%s faultEvery=%d states=%v programs=%v feed=%d", target, park, env.bindingId, faultEvery, names, descs, len(feed))
+	rc.Desc = fmt.Sprintf("target=%s park=%v detach=%s faultEvery=%d logAll=%v states=%v programs=%v feed=%d", target, park, env.bindingId, faultEvery, logAll, names, descs, len(feed))
 	rc.Shape = rc.Desc
 	rc.NonTrivial = true
 	before := raceLogSize()
@@ -287,6 +298,10 @@ func runC12(t *testing.T, rc *core.RunCtx) {
 		m := am.New(ctx, schema, &am.Opts{Id: "m", HandlerTimeout: 100000 * time.Hour, DontLogStackTrace: true})
 		if err := m.VerifyStates(all); err != nil {
 			panic(err)
+		}
+		if logAll {
+			m.SemLogger().SetLogger(func(level am.LogLevel, msg string, args ...any) {})
+			m.SemLogger().SetLevel(am.LogEverything)
 		}
 		var recv reflect.Value
 		var nmInt *arpc.NetMachInternal
@@ -355,6 +370,10 @@ func runC12(t *testing.T, rc *core.RunCtx) {
 				for _, c := range prog {
 					func() {
 						defer func() { _ = recover() }() // panics are C20's
+						if c.name == "help.CantAdd" {
+							_ = amhelp.CantAdd(m, am.S{c.desc}, nil)
+							return
+						}
 						recv.MethodByName(c.name).Call(c.args)
 					}()
 					s.Op()
